@@ -182,3 +182,13 @@ Section Resolver.
               end
     end.
 End Resolver.
+
+(* Nodes.ancestor (syntax/node/query.py): the nearest entry on the path - the path's own last element included -
+   whose tag is the requested one; a function of the path and the tag alone *)
+Fixpoint ancestor_rev (rp : path) (tag : str) : option path :=
+  match rp with
+  | [] => None
+  | e :: r => if str_eqb (fst e) tag then Some (rev rp) else ancestor_rev r tag
+  end.
+Definition ancestor (p : path) (tag : str) : option path := ancestor_rev (rev p) tag.
+
